@@ -19,6 +19,9 @@ import (
 type Viol struct {
 	Class string `json:"class"` // narrow, deterministic class key
 	Msg   string `json:"msg"`
+	// Case, when set, is a narrower case that reproduces this violation on its own (for a schedule search: the one
+	// schedule that failed). It becomes the witness instead of the case the worker was given.
+	Case json.RawMessage `json:"case,omitempty"`
 }
 
 // Result is what a worker returns for one case.
